@@ -174,8 +174,8 @@ def run(rep):
     rep.check(okxy, "R16.b", "gis/grid.py", "Catchment.intersect", "points = centres of the (filled) catchment area cells", show(pargs.get("xy_area", num(0)))[:160], line=st.call.lineno)
     for pn in ("idxcells", "weights"):
         v = st.args.get(pn)
-        okv = v is not None and v[1].fresh and v[1].init == ("zeros",) and v[1].shape is not None and len(v[1].shape) == 1
-        rep.check(okv, "R16.b", "gis/grid.py", "Catchment.intersect", f"`{pn}`: fresh zero vector", "", line=st.call.lineno)
+        xlayer.check_init(rep, v, ("zeros",), "R16.b", "gis/grid.py", "Catchment.intersect", f"`{pn}`: fresh zero vector", st.call.lineno,
+                          extra_ok=v is not None and v[1].shape is not None and len(v[1].shape) == 1)
     paths, before = run_with_havoc(f, st.call, {v[0].id: pn for pn, v in st.args.items() if isinstance(v[0], ast.Name)})
     rets = [p for p in paths if p.how == "return"]
     if not rets:
